@@ -202,3 +202,247 @@ package weshnet
 //@        && verify(bytes(caller_g.PublicKey), bytes(caller_g.Secret), bytes(caller_g.SecretSig))
 //@   at (*berty.tech/weshnet/v2.MetadataStore).attributeSignAndAddEvent requires [C12.join.event] typeis(evt, "*berty.tech/weshnet/v2/pkg/protocoltypes.AccountGroupJoined")
 //@        && as(evt, "*berty.tech/weshnet/v2/pkg/protocoltypes.AccountGroupJoined").Group == caller_g && eventType == 101
+
+//@ # ======================= C19: no request can crash the service =======================
+//@ # Thin safety contracts: every nil dereference, index, slice, type assertion and explicit panic on every path of a
+//@ # handler is excluded for any request content, with the account group possibly absent. The stores, the OrbitDB
+//@ # wrapper, the contact-request manager and the group contexts are opaque: their methods need a non-nil receiver
+//@ # and may change anything.
+//@ opaque berty.tech/weshnet/v2.MetadataStore, berty.tech/weshnet/v2.MessageStore, berty.tech/weshnet/v2.WeshOrbitDB, berty.tech/weshnet/v2.contactRequestsManager, berty.tech/weshnet/v2.Swiper, berty.tech/weshnet/v2.ConnectednessManager
+//@ # representation invariant of the service; the account group may be absent (deactivated)
+//@ pred gcOK(gc) = gc != nil ==> gc.metadataStore != nil && gc.messageStore != nil && gc.group != nil && gc.ownMemberDevice != nil && gc.secretStore != nil && gc.logger != nil
+//@ pred svcOK(s) = s != nil && unlocked(addr(s.lock)) && s.logger != nil && s.secretStore != nil && s.odb != nil && s.openedGroups != nil && s.contactRequestsManager != nil && gcOK(s.accountGroupCtx)
+//@     && (forall k Bytes {has(s.openedGroups, k)} :: has(s.openedGroups, k) ==> s.openedGroups[k] != nil && gcOK(s.openedGroups[k]))
+//@ func (*service).getAccountGroup
+//@   for C19, C16
+//@   requires s != nil
+//@   modifies lockstate(addr(s.lock))
+//@   ensures result == s.accountGroupCtx
+//@ func (*GroupContext).MetadataStore
+//@   for C19
+//@   safety
+//@   requires gc != nil
+//@   ensures result == gc.metadataStore
+//@ func (*GroupContext).MessageStore
+//@   for C19
+//@   safety
+//@   requires gc != nil
+//@   ensures result == gc.messageStore
+//@ func (*GroupContext).SecretStore
+//@   for C19
+//@   safety
+//@   requires gc != nil
+//@   ensures result == gc.secretStore
+//@ func (*GroupContext).Group
+//@   for C19
+//@   safety
+//@   requires gc != nil
+//@   ensures result == gc.group
+//@ extern (*berty.tech/weshnet/v2.service).GetContextGroupForID(s, id) (gc, err)
+//@   havocall
+//@   ensures err == nil ==> gc != nil && gcOK(gc)
+//@   ensures svcOK(s)
+//@ extern (*berty.tech/weshnet/v2.service).getContactGroup(s, key) (g, err)
+//@   havocall
+//@   ensures err == nil ==> g != nil
+//@   ensures svcOK(s)
+//@ extern (*berty.tech/weshnet/v2.service).getGroupForPK(s, ctx, pk) (g, err)
+//@   havocall
+//@   ensures err == nil ==> g != nil
+//@   ensures svcOK(s)
+//@ extern (*berty.tech/weshnet/v2.service).activateGroup(s, ctx, pk, localOnly) (err)
+//@   havocall
+//@   ensures svcOK(s)
+//@ extern (*berty.tech/weshnet/v2.service).deactivateGroup(s, pk) (err)
+//@   havocall
+//@   ensures svcOK(s)
+
+//@ func (*service).ContactRequestReference
+//@   for C19
+//@   safety
+//@   havocall
+//@   stable svcOK(s)
+
+//@ func (*service).ContactRequestDisable
+//@   for C19
+//@   safety
+//@   havocall
+//@   stable svcOK(s)
+
+//@ func (*service).ContactRequestEnable
+//@   for C19
+//@   safety
+//@   havocall
+//@   stable svcOK(s)
+
+//@ func (*service).ContactRequestResetReference
+//@   for C19
+//@   safety
+//@   havocall
+//@   stable svcOK(s)
+
+//@ func (*service).ContactRequestSend
+//@   for C19
+//@   safety
+//@   havocall
+//@   stable svcOK(s)
+//@   requires req != nil
+
+//@ func (*service).ContactRequestAccept
+//@   for C19
+//@   safety
+//@   havocall
+//@   stable svcOK(s)
+//@   requires req != nil
+
+//@ func (*service).ContactRequestDiscard
+//@   for C19
+//@   safety
+//@   havocall
+//@   stable svcOK(s)
+//@   requires req != nil
+
+//@ func (*service).ShareContact
+//@   for C19
+//@   safety
+//@   havocall
+//@   stable svcOK(s)
+
+//@ func (*service).DecodeContact
+//@   for C19
+//@   safety
+//@   havocall
+//@   stable svcOK(s)
+//@   requires req != nil
+
+//@ func (*service).ContactAliasKeySend
+//@   for C19
+//@   safety
+//@   havocall
+//@   stable svcOK(s)
+//@   requires req != nil
+
+//@ func (*service).ContactBlock
+//@   for C19
+//@   safety
+//@   havocall
+//@   stable svcOK(s)
+//@   requires req != nil
+
+//@ func (*service).ContactUnblock
+//@   for C19
+//@   safety
+//@   havocall
+//@   stable svcOK(s)
+//@   requires req != nil
+
+//@ func (*service).RefreshContactRequest
+//@   for C19
+//@   safety
+//@   havocall
+//@   stable svcOK(s)
+//@   requires req != nil
+
+//@ func (*service).MultiMemberGroupCreate
+//@   for C19
+//@   safety
+//@   havocall
+//@   stable svcOK(s)
+
+//@ func (*service).MultiMemberGroupJoin
+//@   for C19
+//@   safety
+//@   havocall
+//@   stable svcOK(s)
+//@   requires req != nil
+
+//@ func (*service).MultiMemberGroupLeave
+//@   for C19
+//@   safety
+//@   havocall
+//@   stable svcOK(s)
+//@   requires req != nil
+
+//@ func (*service).MultiMemberGroupAliasResolverDisclose
+//@   for C19
+//@   safety
+//@   havocall
+//@   stable svcOK(s)
+//@   requires req != nil
+
+//@ func (*service).MultiMemberGroupInvitationCreate
+//@   for C19
+//@   safety
+//@   havocall
+//@   stable svcOK(s)
+//@   requires req != nil
+
+//@ func (*service).CredentialVerificationServiceInitFlow
+//@   for C19
+//@   safety
+//@   havocall
+//@   stable svcOK(s)
+//@   requires request != nil
+
+//@ func (*service).CredentialVerificationServiceCompleteFlow
+//@   for C19
+//@   safety
+//@   havocall
+//@   stable svcOK(s)
+//@   requires request != nil
+
+//@ func (*service).VerifiedCredentialsList
+//@   for C19
+//@   safety
+//@   havocall
+//@   stable svcOK(s)
+//@   requires request != nil
+
+//@ func (*service).AppMetadataSend
+//@   for C19
+//@   safety
+//@   havocall
+//@   stable svcOK(s)
+//@   requires req != nil
+
+//@ func (*service).AppMessageSend
+//@   for C19
+//@   safety
+//@   havocall
+//@   stable svcOK(s)
+//@   requires req != nil
+
+//@ func (*service).OutOfStoreReceive
+//@   for C19
+//@   safety
+//@   havocall
+//@   stable svcOK(s)
+//@   requires request != nil
+
+//@ func (*service).OutOfStoreSeal
+//@   for C19
+//@   safety
+//@   havocall
+//@   stable svcOK(s)
+//@   requires request != nil
+
+//@ func (*service).GroupInfo
+//@   for C19
+//@   safety
+//@   havocall
+//@   stable svcOK(s)
+//@   requires req != nil
+
+//@ func (*service).ActivateGroup
+//@   for C19
+//@   safety
+//@   havocall
+//@   stable svcOK(s)
+//@   requires req != nil
+
+//@ func (*service).DeactivateGroup
+//@   for C19
+//@   safety
+//@   havocall
+//@   stable svcOK(s)
+//@   requires req != nil
